@@ -453,6 +453,49 @@ def gen_table(ctx):
     return tr, allok
 
 
+def gen_readsets(ctx, tr):
+    """Second translator: what codegen/cython.py + vform.py READ of each class; obligations reads <= keyed/derived/late."""
+    from translate import c13_readsets as RS
+    from translate import exprclasses as T
+    if tr is None:
+        return False
+    try:
+        rs = RS.analyse(ctx.impl.dir)
+    except T.TranslateError as e:
+        ctx.obligations += 1
+        ctx.broken.append('read-set translator (fail-closed): %s' % e)
+        log('[C13] read-set translator refused: %s' % e)
+        return False
+    txt, obl = RS.to_coq(rs, tr)
+    txt = txt.replace('From Verif.C13 Require Import Model Spec ReadSets.',
+                      'From Verif.C13 Require Import Model Spec ReadSets.\nFrom %s Require Import C13_ExprKeys.' % genlib(ctx))
+    ok, out = ctx.gen_obligation('C13_ReadSets', txt)
+    if not ok:
+        ctx.broken.append('generated read-set table does not compile: ' + out[-500:])
+        return False
+    head = ('From Coq Require Import String.\nFrom Coq Require Import List ZArith Bool.\nFrom Verif.C13 Require Import Model Spec ReadSets.\n'
+            'From @GENLIB@ Require Import C13_ExprKeys C13_ReadSets.\n')
+    files = [('C13_rd_' + name, head + T.obligation_text(name, stmt)) for name, stmt in obl]
+    ra = eval_many(ctx, [('C13_rd_all', head + ''.join(T.obligation_text(name, stmt) for name, stmt in obl))], timeout=300)[0]
+    res = [(f[0], True, '') for f in files] if ra[1] else eval_many(ctx, files, timeout=300)
+    allok = True
+    for (name, stmt), (fname, ok_, out) in zip(obl, res):
+        ctx.obligations += 1
+        ctx.checker_cmds.append('cd coq && coqc -R . Verif gen/%s.v' % fname)
+        if ok_:
+            ctx.discharged += 1
+        else:
+            allok = False
+            ctx.broken.append('generated obligation %s fails on the current source: %s [read sets %s; unresolved %s]'
+                              % (name, stmt, {n: c['reads'] for n, c in rs['classes'].items()}, rs['unresolved'][:10]))
+            log('[C13] read-set obligation %s FAILS' % name)
+    ctx.cov['generator_attribute_reads_classified'] = rs['attribute_reads_seen']
+    ctx.cov['generator_read_sets'] = {n: c['reads'] for n, c in rs['classes'].items()}
+    for n in rs['classes']:
+        ctx.count(('readset', n), nontrivial=bool(rs['classes'][n]['reads']))
+    return allok
+
+
 def already_reported(ctx, sig):
     return any(v[0] == sig for v in ctx.violations) or sig in ctx.known_hits
 
@@ -1104,9 +1147,15 @@ def run(ctx):
         '(statement interning and def/use extraction in harness/props/c13.py are trusted)',
         'not covered: accidental 64-bit collisions; cythonize/gcc/dlopen (thorough tier builds 3 neighbour pairs for real)',
     ]
+    ok1b = ctx.obligations_stage('C13/Props3.v', extra_targets=['C13/Examples3.vo'])
+    ctx.assumptions.append('read sets: every attribute read (x.a, getattr/hasattr with a literal name) in pyiga/codegen/cython.py and pyiga/vform.py is '
+                           'collected by translate/c13_readsets.py (fail-closed on reflective access) and attributed by name to every modelled class having '
+                           'that attribute; Coq checks reads <= code-relevant (Expr classes) resp. key ++ derived ++ late (records) on every run; that Python '
+                           'reads attributes only through these syntactic forms is trusted; parse_vf/_check_input_field (form construction from text) are outside')
     tick(ctx, 'obligations done')
     ctx.impl.build()
     tr, tr_ok = gen_table(ctx)
+    gen_readsets(ctx, tr)
     tick(ctx, 'tables translated')
     specs, dist = F.gen_specs(ctx.rng, thorough)
     log('[C13] %d form specs: %s' % (len(specs), dist))
